@@ -10,6 +10,7 @@ import (
 	"net"
 	"os"
 	"path/filepath"
+	"regexp"
 	"strings"
 	"time"
 
@@ -48,6 +49,8 @@ func c19Classify(addr string) (class, proto, body string) {
 }
 
 var c19Product int64
+
+var c19ConcretePort = regexp.MustCompile(`^(127\.0\.0\.1|\[::1\]|localhost|):[1-9][0-9]{3,4}$`)
 
 func c19Serve(svc *varlink.Service, entry, addr string, old net.Listener) (done chan error, bindErr error, p string) {
 	done = make(chan error, 1)
@@ -232,6 +235,9 @@ func c19One(r *fw.Run, c *c19Case) {
 	if bindErr == nil && done != nil {
 		// consistency: the same string on the client side reaches this service
 		skipClient := (proto == "unix" && body == "@") || (proto == "tcp" && (body == "" || strings.HasSuffix(body, ":0") || strings.HasSuffix(body, ":")))
+		if c.What == "free composition" && proto == "tcp" && !c19ConcretePort.MatchString(body) {
+			skipClient = true // port 0 spellings, named ports, wildcard hosts: where the listener ends up is the system's choice
+		}
 		if !skipClient {
 			if err := c19Client(c.Addr, product); err != nil {
 				if strings.HasPrefix(err.Error(), "PANIC") {
@@ -332,7 +338,7 @@ func genC19(r *fw.Run, rng *rand.Rand, n int) []*c19Case {
 	// the grammar
 	for len(out) < n {
 		tail := tails[rng.Intn(len(tails))]
-		switch rng.Intn(24) {
+		switch rng.Intn(28) {
 		case 0:
 			add(func() string { return "unix:"+newPath()+tail }, "absolute path", "valid")
 		case 1:
@@ -399,6 +405,26 @@ func genC19(r *fw.Run, rng *rand.Rand, n int) []*c19Case {
 			}, "path length near the limit", "")
 		case 23:
 			add(func() string { return "unix:" + newPath() + "/" + tail }, "trailing slash", "")
+		case 24, 25, 26, 27:
+			// free composition: protocol part, separator, 0-4 body tokens, tail - whatever comes out is judged by c19Classify alone
+			protos := []string{"unix", "unix", "unix", "tcp", "tcp", "", "UNIX", "unix ", " tcp", "unixx", "tc", "@", "é"}
+			seps := []string{":", ":", ":", ":", "", "::", ";", ":;", " :"}
+			mk := func() string {
+				k++
+				uniq := fmt.Sprintf("u%d", k)
+				toks := []string{"@", "@", uniq, filepath.Join(r.WorkDir, uniq), "127.0.0.1", ":", fmt.Sprint(freePort()), "0", "[::1]", " ", "é", "=", "mode=0600", "localhost", "-", "%", "\\", "@@", "unix:", "tcp:"}
+				body := ""
+				for i, m := 0, rng.Intn(5); i < m; i++ {
+					body += toks[rng.Intn(len(toks))]
+				}
+				s := protos[rng.Intn(len(protos))] + seps[rng.Intn(len(seps))] + body
+				// two cases never share a filesystem or abstract name: a unix body without this case's unique token gets it appended
+				if _, pr, b := c19Classify(s); pr == "unix" && b != "" && !strings.Contains(b, uniq) && !strings.Contains(s[len(pr)+1:], ";") {
+					s += uniq
+				}
+				return s + tail
+			}
+			add(mk, "free composition", "")
 		}
 	}
 	return out
@@ -407,7 +433,7 @@ func genC19(r *fw.Run, rng *rand.Rand, n int) []*c19Case {
 func runC19(r *fw.Run) {
 	os.Chdir(r.WorkDir)
 	rng := rand.New(rand.NewSource(r.Seed*43 + 19))
-	cases := genC19(r, rng, r.Pick(6000, 40000))
+	cases := genC19(r, rng, r.Pick(6000, 400000))
 	fw.Parallel(8, len(cases), func(w, i int) {
 		c := cases[i]
 		r.Journal(w, c)
@@ -415,13 +441,26 @@ func runC19(r *fw.Run) {
 			r.Violation("C19 panic", pn, c)
 		}
 		r.Done(w)
-		r.Case(fw.Hash(c.What, c.Entry, c.Before, c.Pre, fmt.Sprint(strings.Contains(c.Addr, ";"))), true)
+		shape := ""
+		if c.What == "free composition" {
+			shape = c19Shape(r.WorkDir, c.Addr)
+			r.Distinct("composition_shapes", shape)
+		}
+		r.Case(fw.Hash(c.What, c.Entry, c.Before, c.Pre, fmt.Sprint(strings.Contains(c.Addr, ";")), shape), true)
 		r.Distinct("address_forms", c.What)
 		if i%90 == 0 {
 			r.Sample(c)
 		}
 	})
 }
+
+// c19Shape: the composed string with the work directory, counters and port numbers abstracted away.
+func c19Shape(wd, a string) string {
+	a = strings.ReplaceAll(a, wd, "<wd>")
+	return c19Digits.ReplaceAllString(a, "N")
+}
+
+var c19Digits = regexp.MustCompile(`[0-9]+`)
 
 func replayC19(r *fw.Run, raw json.RawMessage) {
 	os.Chdir(r.WorkDir)
@@ -437,7 +476,7 @@ func replayC19(r *fw.Run, raw json.RawMessage) {
 func init() {
 	fw.Register(&fw.Engine{
 		ID: "C19", Level: "exploration",
-		Rule: "a case = (address string, entry point Bind or Listen, what the same Service object did before: nothing / a valid Bind that was never served / a full serve+shutdown, pre-existing file at the path: none / stale socket / regular file). Strings come from an address grammar: protocol in {unix, tcp, upper/mixed case, other Go network names, blanks, empty, missing}; bodies: absolute path in the work directory, relative path, '@name', '@', empty, path in a missing directory, over-long path, colons and unicode in the path, host:port, ':port', port only, IPv6, port 0, bad port, bad IP, empty; each with one of 6 ';parameter' tails (incl. ';' directly after the colon); plus random printable strings. Oracle: never a panic from Bind, Listen or NewConnection; strings lacking '<protocol>:', naming another protocol or an empty unix path => an error, whatever was bound before; forms listed as valid => success; whenever binding succeeds a client created with the SAME string completes a GetInfo round trip with this service's unique product string (so both sides drop the same ';' tail and agree on '@'); '@name': no filesystem entry, raw dial of \\0name is served; filesystem sockets: the path is a socket after bind (stale socket / file replaced) and gone after Shutdown made serving return; after every outcome the same object binds a fresh valid address and serves it. distinct by (form, entry, before, pre, tail).",
+		Rule: "a case = (address string, entry point Bind or Listen, what the same Service object did before: nothing / a valid Bind that was never served / a full serve+shutdown, pre-existing file at the path: none / stale socket / regular file). Strings come from an address grammar: protocol in {unix, tcp, upper/mixed case, other Go network names, blanks, empty, missing}; bodies: absolute path in the work directory, relative path, '@name', '@', empty, path in a missing directory, over-long path, colons and unicode in the path, host:port, ':port', port only, IPv6, port 0, bad port, bad IP, empty; each with one of 6 ';parameter' tails (incl. ';' directly after the colon); plus random printable strings, plus free compositions (any of 13 protocol parts, 9 separators, 0-4 of 20 body tokens, tail; client reachability over tcp only asserted when the string names a concrete loopback port). Oracle: never a panic from Bind, Listen or NewConnection; strings lacking '<protocol>:', naming another protocol or an empty unix path => an error, whatever was bound before; forms listed as valid => success; whenever binding succeeds a client created with the SAME string completes a GetInfo round trip with this service's unique product string (so both sides drop the same ';' tail and agree on '@'); '@name': no filesystem entry, raw dial of \\0name is served; filesystem sockets: the path is a socket after bind (stale socket / file replaced) and gone after Shutdown made serving return; after every outcome the same object binds a fresh valid address and serves it. distinct by (form, entry, before, pre, tail, shape of a free composition).",
 		Assumptions: []string{"unix:@ (kernel autobind) and port 0 are judged for totality only", "no host names are generated (the sandbox has no resolver)"},
 		Run:         runC19, Replay: replayC19, CrashIsViolation: true, MinEvals: 100,
 		QuickTimeout: 15 * time.Minute, ThoroughTimeout: 60 * time.Minute,
